@@ -138,7 +138,7 @@ class C11(Prop):
     title = "tensor QR/SVD for every bipartition and mode"
     design_ref = "DESIGN.md section 5 / C11"
     rule = ("a case = (shape, ordered leg bipartition (q_legs, r_legs), entry kind, dtype, truncation parameters, leg container type); "
-            "orders 0..6, dimensions 1..5, exhaustive bipartitions for small orders (thorough: up to order 4), sampled above; a malformed "
+            "orders 0..6, dimensions 1..5, all (n+1)! ordered bipartitions for every order <= 4 (quick: one shape at order 4; thorough: three, plus all 720 of one order-5 shape), sampled for orders 5, 6; a malformed "
             "stream (duplicate / missing / out-of-range legs) that both sides must reject. non-trivial = order >= 2 and size >= 2; "
             "distinct by case content")
     clauses = [
@@ -204,13 +204,12 @@ class C11(Prop):
         fixed = {0: [[]], 1: [[3], [1]], 2: [[2, 3], [1, 4], [3, 1]], 3: [[2, 3, 4], [1, 3, 2], [2, 1, 1]],
                  4: [[2, 3, 4, 5], [2, 1, 3, 2], [1, 2, 1, 3]], 5: [[2, 3, 1, 2, 3], [2, 2, 2, 3, 1]], 6: [[2, 1, 2, 3, 2, 2], [2, 2, 2, 2, 2, 2]]}
         if main:
-            exhaustive_to = 4 if th else 3
-            for n in range(0, exhaustive_to + 1):
-                shapes = fixed[n] if (th or n < 3) else fixed[n][:2]
+            for n in range(0, 6 if th else 5):
+                shapes = fixed[n][:1] if n == 5 else fixed[n] if (th or n < 3) else fixed[n][:2] if n == 3 else fixed[n][:1]
                 for sh in shapes:
                     for ql, rl in self._all_bipartitions(n):
                         cases.append(self._mk(rng, sh, ql, rl))
-        nsample = {4: ctx.scale(40, 0), 5: ctx.scale(24, 400), 6: ctx.scale(8, 120)}
+        nsample = {4: ctx.scale(20, 200), 5: ctx.scale(30, 400), 6: ctx.scale(10, 300)}
         for n, cnt in nsample.items():
             for _ in range(cnt * budget_scale):
                 sh = rng.choice(fixed[n])
@@ -219,7 +218,7 @@ class C11(Prop):
                 ql, rl = self._rand_bip(rng, n)
                 cases.append(self._mk(rng, sh, ql, rl))
         # random shapes: wide / tall / square matricisations, larger dimensions
-        for _ in range(ctx.scale(60, 600) * budget_scale):
+        for _ in range(ctx.scale(80, 2000) * budget_scale):
             n = rng.choice([1, 2, 2, 3, 3, 3, 4, 4])
             sh = [rng.choice([1, 2, 3, 4, 5]) for _ in range(n)]
             while prod(sh) > 400:
@@ -376,18 +375,24 @@ class C11(Prop):
         return 1
 
     def model(self, ctx, cases, obs):
+        # NB: lib.coq_eval reads a shard's stdout only after the process has exited, so a shard must print less
+        # than one pipe buffer (64 KiB): entries are compared inside Coq (cmp_enc) and shards are kept small.
         exprs = []
         for c, ob in zip(cases, obs):
             L = lambda xs: coq_list(xs, coq_nat)  # noqa
+            NL = lambda xs: "(" + coq_list(xs, str) + "%N)"  # noqa
             a = f"{L(c['shape'])} {L(c['ql'])} {L(c['rl'])}"
-            pn = coq_nat(self._plen(ob, "nt")) if "exception" not in ob else "1%nat"
-            pt = coq_nat(self._plen(ob, "tr")) if "exception" not in ob else "1%nat"
+            bad = "exception" in ob
+            pn = "1%nat" if bad else coq_nat(self._plen(ob, "nt"))
+            pt = "1%nat" if bad else coq_nat(self._plen(ob, "tr"))
+            em = [] if bad or ob["mat"] is None else ob["mat"][1]
+            et = [] if bad or ob["tr"] is None else ob["tr"][1]
             qr = "[" + "; ".join(f"qr_shapes {m} {a}" for m in MODES) + "]"
             sv = "[" + "; ".join(f"svd_shapes {m} {a}" for m in MODES) + "]"
             tr = f"[trunc_shapes {pn} {a}; trunc_shapes {pt} {a}]"
             co = "[" + "; ".join(f"contr_shapes {cm} {p} {a}" for p in (pn, pt) for cm in CMODES) + "]"
-            exprs.append(f"(matricize_enc {a}, transpose_enc {a}, {qr}, {sv}, {tr}, {co})")
-        return coq_eval(ctx, IMPORTS, exprs, shard=ctx.scale(40, 120), scope="nat_scope")
+            exprs.append(f"(cmp_enc (matricize_enc {a}) {NL(em)}, cmp_enc (transpose_enc {a}) {NL(et)}, {qr}, {sv}, {tr}, {co})")
+        return coq_eval(ctx, "From Coq Require Import NArith. " + IMPORTS, exprs, shard=40, scope="nat_scope")
 
     @staticmethod
     def _opt_pair(v):
@@ -401,18 +406,18 @@ class C11(Prop):
         if "exception" in ob:
             return f"harness-level exception in the implementation run: {ob['exception']}"
         mat, tr, qrs, svds, trs, cos = mo
-        # index maps
+        # index maps: every entry compared inside Coq; the model returns its shape and the first differing position
         for name, mv, iv in (("tensor_matricization", mat, ob["mat"]), ("transpose_tensor_by_leg_list", tr, ob["tr"])):
-            mv = self._opt_pair(mv)
+            mv = unsome(mv)
             if (mv is None) != (iv is None):
                 return f"{name}: model {'rejects' if mv is None else 'accepts'}, implementation {'rejects' if iv is None else 'accepts'}"
             if mv is not None:
-                if mv[0] != iv[0]:
-                    return f"{name}: shape impl {iv[0]} model {mv[0]}"
-                if mv[1] != iv[1]:
-                    k = next(i for i, (x, y) in enumerate(zip(mv[1], iv[1])) if x != y)
-                    return f"{name}: entry #{k} impl {iv[1][k]} model {mv[1][k]}"
-        mmat = self._opt_pair(mat)
+                if list(mv[0]) != iv[0]:
+                    return f"{name}: shape impl {iv[0]} model {list(mv[0])}"
+                if mv[1] is not None:
+                    k = unsome(mv[1])
+                    return f"{name}: entry #{k} (row-major) differs, impl {iv[1][k] if k < len(iv[1]) else 'missing'}"
+        mmat = ob["mat"]     # tied to the model just above
         for i, md in enumerate(MODES):
             mq = self._opt_pair(qrs[i])
             rec = ob["qr"][md]
@@ -437,7 +442,7 @@ class C11(Prop):
                 if "kin" not in rc:
                     return f"{nm} {md}: kernel not reached on the index-encoding tensor"
                 if not rc["kin"][2] or rc["kin"][:2] != mmat:
-                    return f"{nm} {md}: matrix handed to np.linalg.{nm} differs from the model's matricisation"
+                    return f"{nm} {md}: matrix handed to np.linalg.{nm} differs from the (model-checked) matricisation"
         for j, tag in enumerate(("nt", "tr")):
             mt = self._opt_pair(trs[j])
             rec = ob["tsvd"][tag]
